@@ -57,7 +57,18 @@ pub fn lexiter_obs(text: &str, m: ColumnMetrics, sc: usize, filter: Option<u32>)
             guard += 1;
             if guard > text.len() + 2 { break; }
         }
-        format!("[{}]|{}", items.join(";"), wire::pos(lexer.cursor_pos()))
+        // the iterator adaptor of the lexer yields the same tokens with the same token spans
+        let mut second = Lexer::new(Sc::new(sc), source);
+        if let Some(mask) = filter {
+            second = second.with_filter(Some(filter_fn(mask)));
+        }
+        let via_iter: Vec<String> = second
+            .iter_with_spans()
+            .take(text.len() + 3)
+            .map(|(t, sp)| format!("{}:{}", show_tok(&t), wire::span(sp)))
+            .collect();
+        let manual: Vec<String> = items.iter().map(|it| it.splitn(3, ':').take(2).collect::<Vec<_>>().join(":")).collect();
+        format!("[{}]|{}|{}", items.join(";"), wire::pos(lexer.cursor_pos()), wire::b(via_iter == manual))
     })
 }
 
@@ -101,6 +112,8 @@ pub fn lexiter(out: &mut Out, tier: &Tier, rng: &mut Rng) {
 pub enum Op {
     Next,
     Peek,
+    /// `is_empty_with_filter`
+    EmptyQ,
     NextIf(u32),
     NextIfEq(u32),
     AdvanceTo(u32),
@@ -121,6 +134,7 @@ pub fn show_op(op: &Op) -> String {
     match op {
         Op::Next => "n".into(),
         Op::Peek => "p".into(),
+        Op::EmptyQ => "z".into(),
         Op::NextIf(k) => format!("i{k}"),
         Op::NextIfEq(k) => format!("e{k}"),
         Op::AdvanceTo(k) => format!("t{k}"),
@@ -143,6 +157,7 @@ pub fn parse_op(s: &str) -> Option<Op> {
     Some(match h {
         "n" => Op::Next,
         "p" => Op::Peek,
+        "z" => Op::EmptyQ,
         "i" => Op::NextIf(r.parse().ok()?),
         "e" => Op::NextIfEq(r.parse().ok()?),
         "t" => Op::AdvanceTo(r.parse().ok()?),
@@ -219,13 +234,23 @@ pub fn fingerprint(dbg: &str) -> String {
 }
 
 fn state_obs(lexer: &Lexer<'_, Sc>) -> String {
+    // the remaining read-only accessors of the lexer, appended after the fingerprint
+    let more = format!(
+        "{};{};{};{};{}",
+        wire::opt_span(lexer.peek_parse_span()),
+        wire::opt_pos(lexer.peek_cursor_pos()),
+        wire::b(lexer.is_empty()),
+        crate::gen::le_name(lexer.line_ending()),
+        lexer.tab_width()
+    );
     format!(
-        "{}/{}/{}/{}/{}",
+        "{}/{}/{}/{}/{}/{}",
         wire::span(lexer.token_span()),
         wire::span(lexer.parse_span()),
         wire::pos(lexer.cursor_pos()),
         wire::opt_span(lexer.peek_token_span()),
-        fingerprint(&format!("{:?}", lexer))
+        fingerprint(&format!("{:?}", lexer)),
+        more
     )
 }
 
@@ -238,6 +263,7 @@ fn apply<'t>(lexer: &mut Lexer<'t, Sc>, op: &Op) -> String {
     match op {
         Op::Next => show_opt_tok(lexer.next()),
         Op::Peek => show_opt_tok(lexer.peek()),
+        Op::EmptyQ => wire::b(lexer.is_empty_with_filter()).to_string(),
         Op::NextIf(k) => show_opt_tok(lexer.next_if(|t| t.kind == *k)),
         Op::NextIfEq(k) => show_opt_tok(lexer.next_if_eq(&tok(*k))),
         Op::AdvanceTo(k) => wire::b(lexer.advance_to(|t| t.kind == *k)).to_string(),
@@ -314,7 +340,7 @@ pub fn project(ops: &[Op]) -> Vec<Op> {
             Op::ForkBegin => depth += 1,
             Op::ForkEnd => depth = depth.saturating_sub(1),
             _ if depth > 0 => {}
-            Op::Peek | Op::StartSublex | Op::IntoSublexer | Op::Spans => {}
+            Op::Peek | Op::EmptyQ | Op::StartSublex | Op::IntoSublexer | Op::Spans => {}
             _ => out.push(op.clone()),
         }
     }
@@ -331,7 +357,8 @@ fn random_op(rng: &mut Rng, allow_builders: bool, allow_sublex: bool) -> Op {
     let kinds = [0u32, 3, 4, 12];
     match rng.below(if allow_builders { 16 } else { 13 }) {
         0 | 1 | 2 => Op::Next,
-        3 | 4 => Op::Peek,
+        3 => Op::Peek,
+        4 => if rng.chance(1, 3) { Op::EmptyQ } else { Op::Peek },
         5 => Op::NextIf(*rng.pick(&kinds)),
         6 => Op::NextIfEq(*rng.pick(&kinds)),
         7 => Op::AdvanceTo(*rng.pick(&kinds)),
@@ -413,7 +440,7 @@ fn lexops_case(out: &mut Out, text: &str, le: LineEnding, tab: u8, sc: usize, op
 pub fn lexops(out: &mut Out, tier: &Tier, rng: &mut Rng) {
     // exhaustive short histories over a small op alphabet on short texts
     let base_ops = [
-        Op::Next, Op::Peek, Op::NextIf(0), Op::AdvanceUpTo(4), Op::AdvanceTo(4),
+        Op::Next, Op::Peek, Op::EmptyQ, Op::NextIf(0), Op::AdvanceUpTo(4), Op::AdvanceTo(4),
         Op::SetFilter(Some(1)), Op::SetFilter(None), Op::StartSublex, Op::Spans,
     ];
     let hl = if tier.thorough { 4 } else { 3 };
